@@ -236,7 +236,7 @@ class Baton:
 # ---------------------------------------------------------------------------
 # request kinds
 
-KINDS = ['plain', 'body', 'raise', 'nf', 'crash', 'json404', 'form', 'hdrs', 'mutq', 'latin', 'badmp_json', 'signed', 'forged', 'stat_s', 'stat_n']
+KINDS = ['plain', 'body', 'raise', 'nf', 'crash', 'json404', 'form', 'hdrs', 'mutq', 'latin', 'badmp_json', 'signed', 'forged', 'stat_s', 'stat_n', 'rewrite']
 
 
 def make_app(config=None, app=None):
@@ -303,6 +303,16 @@ def make_app(config=None, app=None):
             q['tag'].append('seen-by-' + name)
         p = rq.params
         return json.dumps([name, before, sorted(p.keys())])
+
+    @app.route('/rewrite/<name>')
+    def rewrite(name):
+        # a handler that normalises its own request: parsed values are cached first, then the raw keys are rewritten
+        q0 = sorted(rq.query.items())
+        c0 = rq.cookies.get('c')
+        rq['QUERY_STRING'] = 'v=' + name.upper()
+        rq['HTTP_COOKIE'] = 'c=' + name.upper() + '-SESSION'
+        rs.set_cookie('sid', str(rq.cookies.get('c')))
+        return json.dumps([name, q0, c0, sorted(rq.query.items()), rq.cookies.get('c'), sorted(rq.params.keys())])
 
     @app.route('/signed/<name>')
     def signed(name):
@@ -393,7 +403,7 @@ def environ_for(kind, name):
         env['QUERY_STRING'] = 'page=2&tag=x&tag=y'          # the same query string for every client
     elif kind == 'latin':
         env['PATH_INFO'] = '/latin/' + name
-    elif kind in ('stat_s', 'stat_n', 'listen', 'assign'):
+    elif kind in ('stat_s', 'stat_n', 'listen', 'assign', 'rewrite'):
         env['PATH_INFO'] = '/%s/%s' % (kind, name)
     elif kind == 'signed':
         from ombott.common_helpers import cookie_encode
